@@ -344,6 +344,32 @@ func execC05SchedOp(a []string) Result {
 		return res // the property presupposes records inside their block's range and blocks inside their segment's
 	}
 	res.Tags = append(res.Tags, "well-formed")
+	// the released sequence (ties included) is a function of the data: the same segments, handed to the searcher in
+	// the opposite arrival order (in the server: map iteration order of the segment metadata), give the same batches
+	if len(segs) > 1 {
+		rev := make([]int, len(segs))
+		for i := range rev {
+			rev[i] = len(segs) - 1 - i
+		}
+		b2, eof2, err2 := processor.VerifC05SchedArrival(mode, int(mb), segs, maxFetches, rev)
+		same := err2 == nil && eof2 == eof && len(b2) == len(batches)
+		for i := 0; same && i < len(b2); i++ {
+			if len(b2[i]) != len(batches[i]) {
+				same = false
+				break
+			}
+			for k := range b2[i] {
+				if b2[i][k] != batches[i][k] {
+					same = false
+					break
+				}
+			}
+		}
+		if !same {
+			res.Fails = append(res.Fails, PropFail{Sig: "sched/" + modeName + "/order-among-equal-timestamps-depends-on-arrival-order",
+				Msg: fmt.Sprintf("same segments, reversed arrival order: released %v, before %v", b2, batches)})
+		}
+	}
 	// the property itself
 	for i := 1; i < len(flat); i++ {
 		bad := (mode == 1 && flat[i-1].Ts < flat[i].Ts) || (mode == 2 && flat[i-1].Ts > flat[i].Ts)
@@ -988,8 +1014,12 @@ func execC05Sort(a []string) Result {
 	}
 	lim, ok1 := c05Nat(a[0])
 	keys, ok2 := c05ParseKeys(a[1])
-	if !ok1 || !ok2 || lim == 0 {
+	if !ok1 || !ok2 {
 		return Result{Out: "bad-op"}
+	}
+	if lim == 0 {
+		// `sort 0 …` = no limit: the SPL parser (onSortLimit1) hands the processor Limit = math.MaxUint64
+		lim = math.MaxUint64
 	}
 	for _, k := range keys {
 		if k.Op == "ip" { // sortProcessor.validate rejects it: Process fails
@@ -1049,7 +1079,23 @@ func execC05Sort(a []string) Result {
 		res.Fails = append(res.Fails, PropFail{Sig: "sort-comparator/" + cls,
 			Msg: fmt.Sprintf("less is not a strict weak order on records %d,%d,%d of the op line (a~b, b~c but a<c, or a<b<c without a<c)", wit[0], wit[1], wit[2])})
 	}
-	ids, err := processor.VerifC05Sort(keys, lim, batches)
+	var ids []int
+	var err error
+	var pan interface{}
+	func() {
+		defer func() { pan = recover() }()
+		ids, err = processor.VerifC05Sort(keys, lim, batches)
+	}()
+	if pan != nil {
+		// a panic inside sortProcessor.Process runs on a goroutine of the query pipeline in the real server: the process exits
+		res.Out = "panic"
+		shape := "limited"
+		if lim > math.MaxInt64 {
+			shape = "limit-0-unlimited"
+		}
+		res.Fails = append(res.Fails, PropFail{Sig: "sort-output/panic/" + shape, Msg: trunc(fmt.Sprintf("sortProcessor.Process panicked (limit %d): %v", lim, pan), 300)})
+		return res
+	}
 	if err != nil {
 		res.Out = "err"
 		return res
@@ -1178,6 +1224,9 @@ func genC05Cmp(r *rand.Rand, n int, tier string) []string {
 		"c5sort 10 anum i3;" + c05StrTok("nan") + ";i1;" + c05StrTok("nan") + ";i2",
 		"c5sort 10 anum i9007199254740993;i9007199254740992",
 		"c5sort 2 anum i3;i1|i2;i1",
+		// `sort 0` = no limit (Limit = MaxUint64): single batch, several batches
+		"c5sort 0 anum i3;i1;i2",
+		"c5sort 0 dnum i3;i1|i2;i1|i5",
 		"c5sort 1 anum i3;i1",
 		"c5sort 2000 dstr,anum " + c05StrTok("b") + ",i2;" + c05StrTok("a") + ",i1;" + c05StrTok("b") + ",i1",
 	}
